@@ -69,7 +69,9 @@ Record async_ok (r r' : jst) : Prop := {
   ao_wake : ev r' = true -> ev r = false -> pc r = PAwaitReady -> pc r' = PWokenReady;
   ao_evst : ev r' = ev r \/ st r' = ERROR \/ st r' = READY;
   ao_uns0 : r' = r \/ (uns r' = 0 -> notstarted (st r') = true -> st r' = READY);
-  ao_fdep2 : fdep r' = fdep r \/ (finished (st r) = false /\ st r' = ERROR)
+  ao_fdep2 : fdep r' = fdep r \/ (finished (st r) = false /\ st r' = ERROR);
+  ao_err : st r' = ERROR -> st r = ERROR \/ notstarted (st r) = true;
+  ao_run : st r = RUNNING -> st r' = RUNNING
 }.
 
 Lemma async_ok_refl : forall r, async_ok r r.
@@ -86,27 +88,29 @@ Proof.
 Qed.
 
 Lemma depchanged_l_async : forall r i old new r' w,
-  depchanged_l true r i old new = (r', w) ->
+  depchanged_l true true r i old new = (r', w) ->
   async_ok r r' /\ cur r' = replace_nth i new (cur r) /\
   uns r' = uns r - (okval new - okval old) /\
   (w = true <-> pc r' <> pc r) /\
   (st r' = ERROR -> st r = ERROR \/ new = DFAIL) /\
-  (new = DFAIL -> finished (st r') = true).
+  (new = DFAIL -> finished (st r') = true \/ notstarted (st r) = false).
 Proof.
   unfold depchanged_l; intros r i old new r' w H.
   set (r1 := w_cur (w_uns r (uns r - (okval new - okval old))) (replace_nth i new (cur r))) in *.
-  destruct (dstatus_eqb new DFAIL && negb (finished (st r1))) eqn:E1.
+  destruct (dstatus_eqb new DFAIL && notstarted (st r1)) eqn:E1.
   - destruct (set_event_l (w_fdep (w_st r1 ERROR) true)) as [r2 w2] eqn:S2.
     apply set_event_l_spec in S2. simpl in S2.
     destruct S2 as (S_st & S_uns & S_cur & S_held & S_fdep & S_l & S_ev & S_pc).
     assert (N : (uns r2 =? 0) && (negb true || notstarted (st r2)) = false).
     { rewrite S_st. simpl. apply andb_false_r. }
     rewrite N in H. inversion H; subst r' w. clear H N. rewrite orb_false_r.
-    apply andb_true_iff in E1. destruct E1 as [E1 E2]. apply negb_true_iff in E2. simpl in E2.
+    apply andb_true_iff in E1. destruct E1 as [E1 E2'']. simpl in E2''.
+    assert (E2 : finished (st r) = false) by (destruct (st r); simpl in *; congruence).
     apply dstatus_eqb_eq in E1.
     split; [constructor|]; simpl; rewrite ?S_st, ?S_uns, ?S_cur, ?S_held, ?S_fdep, ?S_l, ?replace_nth_length; auto;
       try solve [destruct S_pc as [(?&?&[?|?])|(?&?&?&?)]; subst; intuition (auto; congruence)].
     right. intros _ Hn. discriminate.
+    intros X. rewrite X in E2''. discriminate.
   - destruct ((uns r1 =? 0) && (negb true || notstarted (st r1))) eqn:E3.
     + destruct (set_event_l (w_st r1 READY)) as [r3 w3] eqn:S3.
       apply set_event_l_spec in S3. simpl in S3.
@@ -114,33 +118,32 @@ Proof.
       inversion H; subst r' w. clear H.
       apply andb_true_iff in E3. destruct E3 as [E3 E4]. simpl in E3, E4.
       apply Z.eqb_eq in E3.
-      assert (NF : new = DFAIL -> finished (st r) = true).
-      { intros ->. apply andb_false_iff in E1. destruct E1 as [E1|E1]; [discriminate|].
-        apply negb_false_iff in E1. exact E1. }
+      assert (NF : new = DFAIL -> notstarted (st r) = false).
+      { intros ->. apply andb_false_iff in E1. destruct E1 as [E1|E1]; [discriminate|]. exact E1. }
       split; [constructor|]; simpl; rewrite ?S_st, ?S_uns, ?S_cur, ?S_held, ?S_fdep, ?S_l, ?replace_nth_length; auto;
         try solve [destruct S_pc as [(?&?&[?|?])|(?&?&?&?)]; subst; intuition (auto; congruence)].
       repeat split; auto; try congruence;
         try solve [destruct S_pc as [(?&?&[?|?])|(?&?&?&?)]; subst; intuition (auto; congruence)].
-      intros Hf. specialize (NF Hf). destruct (st r); simpl in *; congruence.
+      all: try (intros Hf; rewrite Hf in E4; discriminate).
+      all: try (intros Hf; specialize (NF Hf); simpl in E4; congruence).
     + inversion H; subst r' w. clear H.
       split; [constructor|]; simpl; rewrite ?replace_nth_length; auto; try (intros; congruence).
       * right. intros U Hn. apply andb_false_iff in E3. simpl in E3. destruct E3 as [E3|E3].
         -- apply Z.eqb_neq in E3. contradiction.
         -- congruence.
       * repeat split; auto; try congruence.
-        intros ->. apply andb_false_iff in E1. destruct E1 as [E1|E1]; [discriminate|].
-        apply negb_false_iff in E1. auto.
+        intros ->. apply andb_false_iff in E1. destruct E1 as [E1|E1]; [discriminate|]. right. exact E1.
 Qed.
 
 Lemma replace_nth_id : forall (l : list dstatus) i x, nth_error l i = Some x -> replace_nth i x l = l.
 Proof. induction l; destruct i; simpl; intros; try discriminate; try (inversion H; subst; auto). f_equal; eauto. Qed.
 
-Lemma check_l_async : forall r i new r' w, check_l true r i new = (r', w) ->
+Lemma check_l_async : forall r i new r' w, check_l true true r i new = (r', w) ->
   async_ok r r' /\ (w = true <-> pc r' <> pc r) /\
   (st r' = ERROR -> st r = ERROR \/ new = DFAIL) /\
   (forall old, nth_error (cur r) i = Some old ->
      cur r' = replace_nth i new (cur r) /\ uns r' = uns r - (okval new - okval old) /\
-     (new = DFAIL -> old <> DFAIL -> finished (st r') = true)) /\
+     (new = DFAIL -> old <> DFAIL -> finished (st r') = true \/ notstarted (st r) = false)) /\
   (nth_error (cur r) i = None -> r' = r).
 Proof.
   unfold check_l; intros r i new r' w H. destruct (nth_error (cur r) i) as [old|] eqn:N.
@@ -183,7 +186,9 @@ Record linv (ds : list dep) (mk : bool) (code : Z) (ad : option jstate) (r : jst
   l_WS : pc r = PWokenReady -> st r = READY \/ st r = ERROR;
   l_RT : forall v, pc r = PReturned v -> st r = v;
   l_ad : ad <> None -> started (pc r) = true -> is_adopt (pc r) = true \/ (past_loop (pc r) = true /\ Some (st r) = ad);
-  l_adpc : is_adopt (pc r) = true -> ad <> None
+  l_adpc : is_adopt (pc r) = true -> ad <> None;
+  l_adst : is_adopt (pc r) = true -> st r = RUNNING;
+  l_RUN : st r = RUNNING -> in_run (pc r) = true \/ is_adopt (pc r) = true
 }.
 
 Lemma linv_jst0 : forall ds mk code ad, linv ds mk code ad jst0.
@@ -198,11 +203,11 @@ Lemma linv_async : forall ds mk code ad r r',
   linv ds mk code ad r -> started (pc r) = true -> async_ok r r' ->
   (in_start (pc r) = true -> st r' = ERROR -> st r = ERROR) ->
   uns r' = Z.of_nat (count_nok (cur r')) ->
-  ((exists i, nth_error (cur r') i = Some DFAIL) -> (exists i, nth_error (cur r) i = Some DFAIL) \/ finished (st r') = true) ->
+  ((exists i, nth_error (cur r') i = Some DFAIL) -> (exists i, nth_error (cur r) i = Some DFAIL) \/ finished (st r') = true \/ is_adopt (pc r) = true) ->
   linv ds mk code ad r'.
 Proof.
   intros ds mk code ad r r' L S A Hnf Hu Hf.
-  destruct A as [Ah Al Ap Ae As Afd Alen Aw Aes Au0 Af2].
+  destruct A as [Ah Al Ap Ae As Afd Alen Aw Aes Au0 Af2 Aerr Arun].
   assert (PC : pc r' = pc r \/ (pc r = PAwaitReady /\ pc r' = PWokenReady /\ ev r = false)) by (destruct Ap as [?|(?&?&?&?)]; auto).
   assert (FIN : finished (st r) = true -> st r' = st r).
   { intros F. destruct As as [?|[(?&?)|(N&?)]]; auto; try congruence. destruct (st r); simpl in *; congruence. }
@@ -248,8 +253,9 @@ Proof.
         -- right; right. destruct PC as [E'|(E'&_)]; [rewrite E'; reflexivity|discriminate].
       * pose proof (l_A L) as F. rewrite P in F. simpl in F. rewrite F in NF; auto. discriminate.
   - intros NS. exfalso. destruct PC as [E|(_&E&_)]; rewrite E in NS; [congruence|discriminate].
-  - intros X. destruct (Hf X) as [Y|Y]; auto. destruct (l_F L Y) as [F|F]; [left; rewrite (FIN F); exact F|right].
-    destruct PC as [E|(E&_)]; [congruence|]. rewrite E in F; discriminate.
+  - intros X. assert (AP : is_adopt (pc r) = true -> is_adopt (pc r') = true).
+    { intros F. destruct PC as [E|(E&_)]; [congruence|]. rewrite E in F; discriminate. }
+    destruct (Hf X) as [Y|[Y|Y]]; auto. destruct (l_F L Y) as [F|F]; [left; rewrite (FIN F); exact F|right; auto].
   - rewrite Ah. intros H. destruct (l_held L H) as [P|[P|[P|P]]]; destruct PC as [E|(E&_)]; rewrite ?E in *; try discriminate; tauto.
   - intros P. destruct Ap as [E|(_&_&_&E)]; auto.
     rewrite E in P. apply Ae. apply (l_WR L P).
@@ -269,6 +275,9 @@ Proof.
     + right. pose proof (l_A L X) as F. rewrite (FIN F). destruct PC as [E|(E&_)]; [split; congruence|].
       rewrite E in X; discriminate.
   - intros X. apply (l_adpc L). destruct PC as [E|(_&E&_)]; [congruence|]. rewrite E in X; discriminate.
+  - intros X. apply Arun. apply (l_adst L). destruct PC as [E|(_&E&_)]; [congruence|]. rewrite E in X; discriminate.
+  - intros X. assert (Y : st r = RUNNING) by (destruct As as [E|[(_&E&_)|(_&E&_)]]; congruence).
+    destruct (l_RUN L Y) as [Z|Z]; [left|right]; (destruct PC as [E|(E&_)]; [congruence|rewrite E in Z; discriminate]).
 Qed.
 
 (* ------------------------------------------------------------------ the coroutine's own steps (job-local part) *)
@@ -295,6 +304,7 @@ Lemma linv_doneh : forall ds mk code ad r, lmid ds mk code ad r -> finished (st 
 Proof.
   intros ds mk code ad r [CI L1 MK1 L0 MK ME MF MH MFIN MNF MAD] F; constructor; simpl; auto; try discriminate; try congruence.
   intros AD _. right. split; auto. apply MAD; auto.
+  intros X. rewrite X in F. discriminate.
 Qed.
 
 Lemma linv_awaitready : forall ds mk code ad r, lmid ds mk code ad r -> st r = WAITING -> ev r = false -> uns r <> 0 ->
@@ -374,7 +384,7 @@ Proof.
 Qed.
 
 Lemma reginv_check : forall n r i new r' w, reginv n r -> nth_error (cur r) i = Some DWAIT ->
-  check_l true r i new = (r', w) -> reginv n r' /\ cur r' = replace_nth i new (cur r).
+  check_l true true r i new = (r', w) -> reginv n r' /\ cur r' = replace_nth i new (cur r).
 Proof.
   intros n r i new r' w R N H. apply check_l_async in H. destruct H as (A & _ & E & C & _).
   destruct (C _ N) as (Cc & Cu & Cf). clear C.
@@ -395,7 +405,10 @@ Proof.
   - intros (k & Hk). rewrite Cc in Hk. rewrite nth_error_replace in Hk.
     destruct (Nat.eqb i k) eqn:Ek.
     + apply Nat.eqb_eq in Ek. subst k. rewrite N in Hk. inversion Hk; subst new.
-      assert (F : finished (st r') = true) by (apply Cf; auto; discriminate).
+      assert (F : finished (st r') = true).
+      { destruct Cf as [F|F]; auto; try discriminate.
+        destruct Rs as [(S&_)|[(S&_)|(S&_)]]; rewrite S in F; try discriminate.
+        destruct As as [X|[(X&_)|(X&_)]]; try (rewrite S in X; discriminate). rewrite X, S. reflexivity. }
       destruct As as [X|[(_&X&_)|(_&X&_)]]; auto; try (rewrite X in F; discriminate).
       destruct Rs as [(S&_)|[(S&_&U)|(S&_)]]; try congruence; rewrite X, S in F; discriminate.
     + assert (S : st r = ERROR) by (apply Rf; eauto).
@@ -414,11 +427,11 @@ Proof. induction done; simpl; auto. Qed.
 
 Lemma reg_l_ok : forall news n r done,
   reginv n r -> cur r = done ++ repeat DWAIT (length news) ->
-  reginv n (reg_l true r news (length done)) /\ cur (reg_l true r news (length done)) = done ++ news.
+  reginv n (reg_l true true r news (length done)) /\ cur (reg_l true true r news (length done)) = done ++ news.
 Proof.
   induction news as [|x rest IH]; simpl; intros n r done R C.
   - rewrite app_nil_r in *. auto.
-  - destruct (check_l true r (length done) x) as [r' w] eqn:H. simpl.
+  - destruct (check_l true true r (length done) x) as [r' w] eqn:H. simpl.
     assert (N : nth_error (cur r) (length done) = Some DWAIT) by (rewrite C; apply nth_error_app_len).
     destruct (@reginv_check n r (length done) x r' w R N H) as (R' & C').
     rewrite C, replace_nth_app in C'.
@@ -457,7 +470,7 @@ Qed.
 
 Lemma spawn_l_ok : forall ds mk code ad r news,
   linv ds mk code ad r -> pc r = PSpawned -> length news = length ds ->
-  let p := spawn_l true mk (is_some_b ad) r news in
+  let p := spawn_l true true mk (is_some_b ad) r news in
   linv ds mk code ad (fst p) /\ cur (fst p) = news /\ started (pc (fst p)) = true /\
   (snd p = true <-> (past_loop (pc (fst p)) = true /\ st (fst p) <> DONE)) /\
   (st (fst p) = READY -> forall i d, nth_error news i = Some d -> d = DOK) /\
@@ -474,7 +487,7 @@ Proof.
   set (r0 := w_st (w_ev r false) WAITING).
   set (r1 := match news with
              | [] => w_st (w_ev r0 true) READY
-             | _ => reg_l true (w_cur (w_uns r0 (Z.of_nat (length news))) (repeat DWAIT (length news))) news 0
+             | _ => reg_l true true (w_cur (w_uns r0 (Z.of_nat (length news))) (repeat DWAIT (length news))) news 0
              end).
   assert (R1 : reginv (length news) r1 /\ cur r1 = news).
   { subst r1. destruct news as [|x rest] eqn:En.
@@ -659,7 +672,7 @@ Qed.
 (* a change of program counter that keeps the class of the job *)
 Lemma linv_deliver : forall ds mk code ad r a, linv ds mk code ad r -> pc r = PExt a -> linv ds mk code ad (w_pc r (PWoken a)).
 Proof.
-  intros ds mk code ad r a [A D EV CI L1 RUN L2 L0 MK E EN UN F H WR RS WS RT AD ADPC] P.
+  intros ds mk code ad r a [A D EV CI L1 RUN L2 L0 MK E EN UN F H WR RS WS RT AD ADPC ADST LRUN] P.
   constructor; simpl; auto; try discriminate; rewrite P in *; simpl in *;
     try (destruct a; simpl in *; auto; fail).
   - intros X. destruct (EN X) as [Y|Y]; [discriminate|]. right. destruct a; auto.
@@ -670,26 +683,26 @@ Ltac pcc := intros; try (intuition (try discriminate; try congruence; auto); fai
 
 Lemma linv_lockoutrun : forall ds mk code ad r, linv ds mk code ad r -> pc r = PWoken ALockOutRun -> linv ds mk code ad (w_pc r (PExt AProc)).
 Proof.
-  intros ds mk code ad r [A D EV CI L1 RUN L2 L0 MK E EN UN F H WR RS WS RT AD ADPC] P.
+  intros ds mk code ad r [A D EV CI L1 RUN L2 L0 MK E EN UN F H WR RS WS RT AD ADPC ADST LRUN] P.
   constructor; simpl; rewrite P in *; simpl in *; pcc.
 Qed.
 
 Lemma linv_returned : forall ds mk code ad r, linv ds mk code ad r -> pc r = PWoken ADoneH -> linv ds mk code ad (w_pc r (PReturned (st r))).
 Proof.
-  intros ds mk code ad r [A D EV CI L1 RUN L2 L0 MK E EN UN F H WR RS WS RT AD ADPC] P.
+  intros ds mk code ad r [A D EV CI L1 RUN L2 L0 MK E EN UN F H WR RS WS RT AD ADPC ADST LRUN] P.
   constructor; simpl; rewrite P in *; simpl in *; pcc.
 Qed.
 
 Lemma linv_spawned : forall ds mk code ad r, linv ds mk code ad r -> pc r = PNot -> linv ds mk code ad (w_pc r PSpawned).
 Proof.
-  intros ds mk code ad r [A D EV CI L1 RUN L2 L0 MK E EN UN F H WR RS WS RT AD ADPC] P.
+  intros ds mk code ad r [A D EV CI L1 RUN L2 L0 MK E EN UN F H WR RS WS RT AD ADPC ADST LRUN] P.
   assert (U := UN). rewrite P in U. simpl in U. destruct (U eq_refl) as (U1&U2&U3&U4&U5&U6).
   constructor; simpl; auto; try discriminate; try congruence; try lia;
     try (intros X; rewrite U5 in X; destruct X as [i X]; destruct i; discriminate).
 Qed.
 Lemma linv_dup : forall ds mk code ad r k, linv ds mk code ad r -> pc r = PNot -> linv ds mk code ad (w_pc r (PDup k)).
 Proof.
-  intros ds mk code ad r k [A D EV CI L1 RUN L2 L0 MK E EN UN F H WR RS WS RT AD ADPC] P.
+  intros ds mk code ad r k [A D EV CI L1 RUN L2 L0 MK E EN UN F H WR RS WS RT AD ADPC ADST LRUN] P.
   assert (U := UN). rewrite P in U. simpl in U. destruct (U eq_refl) as (U1&U2&U3&U4&U5&U6).
   constructor; simpl; auto; try discriminate; try congruence; try lia;
     try (intros X; rewrite U5 in X; destruct X as [i X]; destruct i; discriminate).
@@ -720,13 +733,13 @@ Lemma linv_launch : forall ds mk code ad r hd, linv ds mk code ad r -> pc r = PW
   linv ds mk code ad (w_pc (w_st (w_launches (w_held r hd) (S (launches (w_held r hd)))) RUNNING) (PExt ALockOutRun)).
 Proof.
   intros ds mk code ad r hd L P. destruct (lockin_facts L P) as (L0 & MK & NE & ND & NF & ADN).
-  destruct L as [A D EV CI L1 RUN L2 L0' MK' E EN UN F H WR RS WS RT AD ADPC].
+  destruct L as [A D EV CI L1 RUN L2 L0' MK' E EN UN F H WR RS WS RT AD ADPC ADST LRUN].
   constructor; simpl; rewrite P in *; simpl in *; rewrite ?L0; pcc.
 Qed.
 
 Lemma linv_held : forall ds mk code ad r hd, linv ds mk code ad r -> pc r = PWoken ALockIn -> linv ds mk code ad (w_held r hd).
 Proof.
-  intros ds mk code ad r hd [A D EV CI L1 RUN L2 L0' MK' E EN UN F H WR RS WS RT AD ADPC] P.
+  intros ds mk code ad r hd [A D EV CI L1 RUN L2 L0' MK' E EN UN F H WR RS WS RT AD ADPC ADST LRUN] P.
   constructor; simpl; rewrite P in *; simpl in *; pcc.
 Qed.
 
@@ -734,13 +747,13 @@ Lemma linv_toabort : forall ds mk code ad r, linv ds mk code ad r -> pc r = PWok
   linv ds mk code ad (w_pc r (PExt ALockOutAbort)).
 Proof.
   intros ds mk code ad r L P. destruct (lockin_facts L P) as (L0 & MK & NE & ND & NF & ADN).
-  destruct L as [A D EV CI L1 RUN L2 L0' MK' E EN UN F H WR RS WS RT AD ADPC].
+  destruct L as [A D EV CI L1 RUN L2 L0' MK' E EN UN F H WR RS WS RT AD ADPC ADST LRUN].
   constructor; simpl; rewrite P in *; simpl in *; rewrite ?L0; pcc.
 Qed.
 
 Lemma linv_release : forall ds mk code ad r, linv ds mk code ad r -> started (pc r) = true -> linv ds mk code ad (w_held r []).
 Proof.
-  intros ds mk code ad r [A D EV CI L1 RUN L2 L0' MK' E EN UN F H WR RS WS RT AD ADPC] S.
+  intros ds mk code ad r [A D EV CI L1 RUN L2 L0' MK' E EN UN F H WR RS WS RT AD ADPC ADST LRUN] S.
   constructor; simpl; pcc.
 Qed.
 
@@ -762,10 +775,10 @@ Record Inv (W : workload) (s : state) : Prop := {
   I_CO : forall x i k, started (pc (jobs s x)) = true -> nth_error (cur (jobs s x)) i = Some DOK ->
            nth_error (deps W x) i = Some (DJob k) -> st (jobs s k) = DONE;
   I_CF : forall x i, started (pc (jobs s x)) = true -> nth_error (cur (jobs s x)) i = Some DFAIL ->
-           exists k, nth_error (deps W x) i = Some (DJob k) /\ (st (jobs s k) = ERROR \/ adopted W k <> None);
+           exists k, nth_error (deps W x) i = Some (DJob k) /\ st (jobs s k) = ERROR;
   I_RD : forall x k, (st (jobs s x) = READY \/ in_start (pc (jobs s x)) = true) -> In (DJob k) (deps W x) ->
            st (jobs s k) = DONE;
-  I_FD : forall x, fdep (jobs s x) = true -> exists k, In (DJob k) (deps W x) /\ (st (jobs s k) = ERROR \/ adopted W k <> None);
+  I_FD : forall x, fdep (jobs s x) = true -> exists k, In (DJob k) (deps W x) /\ st (jobs s k) = ERROR;
   I_LD : forall x k, launches (jobs s x) = 1%nat -> In (DJob k) (deps W x) -> st (jobs s k) = DONE;
   I_sub : forall x k, spawned (pc (jobs s x)) = true -> In (DJob k) (deps W x) -> spawned (pc (jobs s k)) = true;
   I_cnt : unfinished s = Z.of_nat (length (filter (cntf s) (seq 0 (njobs W))));
@@ -811,7 +824,7 @@ Qed.
 Definition stab_gen (strict : bool) (s s' : state) : Prop :=
   forall k,
     (st (jobs s k) = DONE -> st (jobs s' k) = DONE) /\
-    (st (jobs s k) = ERROR -> past_loop (pc (jobs s k)) = true -> st (jobs s' k) = ERROR) /\
+    (st (jobs s k) = ERROR -> st (jobs s' k) = ERROR) /\
     (past_loop (pc (jobs s k)) = true -> past_loop (pc (jobs s' k)) = true) /\
     (forall r0, pc (jobs s k) = PReturned r0 -> pc (jobs s' k) = PReturned r0) /\
     (launches (jobs s' k) = launches (jobs s k) \/
@@ -837,7 +850,7 @@ Lemma inv_update : forall strict W s s' j r',
   wf W = true -> Inv W s -> (j < njobs W)%nat ->
   jobs s' = upd (jobs s) j r' ->
   linv (deps W j) (j_marker (spec W j)) (j_code (spec W j)) (adopted W j) r' ->
-  (st (jobs s j) = DONE -> st r' = DONE) -> (st (jobs s j) = ERROR -> st r' = ERROR \/ is_adopt (pc (jobs s j)) = true) ->
+  (st (jobs s j) = DONE -> st r' = DONE) -> (st (jobs s j) = ERROR -> st r' = ERROR) ->
   (started (pc (jobs s j)) = true -> started (pc r') = true) ->
   (past_loop (pc (jobs s j)) = true -> past_loop (pc r') = true) ->
   (forall r0, pc (jobs s j) = PReturned r0 -> pc r' = PReturned r0) ->
@@ -848,9 +861,9 @@ Lemma inv_update : forall strict W s s' j r',
   (forall i k, started (pc r') = true -> nth_error (cur r') i = Some DOK -> nth_error (deps W j) i = Some (DJob k) ->
      st (jobs s k) = DONE) ->
   (forall i, started (pc r') = true -> nth_error (cur r') i = Some DFAIL ->
-     exists k, nth_error (deps W j) i = Some (DJob k) /\ (st (jobs s k) = ERROR \/ adopted W k <> None)) ->
+     exists k, nth_error (deps W j) i = Some (DJob k) /\ st (jobs s k) = ERROR) ->
   ((st r' = READY \/ in_start (pc r') = true) -> forall k, In (DJob k) (deps W j) -> st (jobs s k) = DONE) ->
-  (fdep r' = true -> exists k, In (DJob k) (deps W j) /\ (st (jobs s k) = ERROR \/ adopted W k <> None)) ->
+  (fdep r' = true -> exists k, In (DJob k) (deps W j) /\ st (jobs s k) = ERROR) ->
   (launches r' = 1%nat -> forall k, In (DJob k) (deps W j) -> st (jobs s k) = DONE) ->
   unfinished s' - unfinished s = (if counted (pc r') then 1 else 0) - (if counted (pc (jobs s j)) then 1 else 0) ->
   (forall x, In x (failed s') <->
@@ -865,16 +878,13 @@ Proof.
   assert (ATJ : jobs s' j = r') by (rewrite EJ; apply upd_same).
   assert (STD : forall k, st (jobs s k) = DONE -> st (jobs s' k) = DONE).
   { intros k D. destruct (Nat.eq_dec k j) as [->|N]; [rewrite ATJ; auto|rewrite SAME; auto]. }
-  assert (STE0 : forall k, st (jobs s k) = ERROR -> st (jobs s' k) = ERROR \/ is_adopt (pc (jobs s k)) = true).
+  assert (STE : forall k, st (jobs s k) = ERROR -> st (jobs s' k) = ERROR).
   { intros k D. destruct (Nat.eq_dec k j) as [->|N]; [rewrite ATJ; auto|rewrite SAME; auto]. }
-  assert (STE : forall k, st (jobs s k) = ERROR \/ adopted W k <> None -> st (jobs s' k) = ERROR \/ adopted W k <> None).
-  { intros k [D|D]; auto. destruct (STE0 k D) as [X|X]; auto. right. apply (l_adpc (I_loc I k) X). }
   assert (STA : forall k, started (pc (jobs s k)) = true -> started (pc (jobs s' k)) = true).
   { intros k D. destruct (Nat.eq_dec k j) as [->|N]; [rewrite ATJ; auto|rewrite SAME; auto]. }
   assert (SPW : forall k, spawned (pc (jobs s k)) = true -> spawned (pc (jobs s' k)) = true).
   { intros k D. destruct (Nat.eq_dec k j) as [->|N]; [rewrite ATJ; auto|rewrite SAME; auto]. }
-  split; [|intros k; destruct (Nat.eq_dec k j) as [->|N]; [rewrite ATJ; repeat split; auto|rewrite SAME; repeat split; auto];
-           intros E P; destruct (SE E) as [X|X]; auto; exfalso; eapply past_not_adopt; eauto].
+  split; [|intros k; destruct (Nat.eq_dec k j) as [->|N]; [rewrite ATJ; repeat split; auto|rewrite SAME; repeat split; auto]].
   constructor.
   - intros x. unfold jl. destruct (Nat.eq_dec x j) as [->|N]; [rewrite ATJ; auto|rewrite SAME; auto; apply (I_loc I)].
   - intros x G. rewrite SAME; [apply (I_out I); auto|lia].
@@ -910,8 +920,7 @@ Proof.
       * intros [(P & D)|(_ & P & NP & D)].
         -- split; [auto|]. pose proof (l_A (I_loc I j) P) as F. fold r in F.
            destruct (st r) eqn:S; simpl in F; try discriminate; [exfalso; auto|].
-           destruct (SE eq_refl) as [X|X]; [rewrite X; discriminate|].
-           exfalso; eapply past_not_adopt; eauto.
+           rewrite SE; auto; discriminate.
         -- split; auto.
       * intros (P & D). destruct (past_loop (pc r)) eqn:PR.
         -- left. split; auto; intros D'; apply D; auto.
